@@ -78,6 +78,26 @@ theorem shape_restoreB (outer inner : BEnv) (pre : List (String × STy)) (h : sh
     simpa [shape] using this
   exact h2
 
+theorem litMul_some {neg : Bool} {n : Nat} {k : IntTy} {ty : Ty} {other : Option (VTy × List Bool × P × BEnv)}
+    {t : VTy} {bs : List Bool} {p : P} {env : BEnv} (h : litMul neg n k ty other = some (t, bs, p, env)) :
+    neg = false ∧ STy.ofTy ty = some (.int k) ∧ ∃ y p2, other = some (.s (.int k), y, p2, env) ∧
+      t = .s (.int k) ∧ bs = (Arith.constMul y k.signed n false).1 ∧
+      p = seqP p2 (if (Arith.constMul y k.signed n false).2 then some .overflow else none) := by
+  unfold litMul at h
+  split at h
+  · simp at h
+  · rename_i hneg
+    split at h
+    · rename_i k' y p2 env2
+      split at h
+      · rename_i hk
+        simp only [Option.some.injEq, Prod.mk.injEq] at h
+        obtain ⟨rfl, rfl, rfl, rfl⟩ := h
+        obtain ⟨rfl, hty⟩ := hk
+        exact ⟨by simpa using hneg, hty, y, p2, rfl, rfl, rfl, rfl⟩
+      · simp at h
+    · simp at h
+
 mutual
 theorem shapeE : (e : Expr) → ∀ (benv : BEnv) (t : VTy) (bs : List Bool) (p : P) (benv' : BEnv),
     bitExpr benv e = some (t, bs, p, benv') → shape benv' = shape benv
@@ -205,10 +225,32 @@ theorem shapeE : (e : Expr) → ∀ (benv : BEnv) (t : VTy) (bs : List Bool) (p 
           · simp at h
         · simp at h
       · simp at h
+    case mul =>
+      simp only [bitExpr, if_true] at h
+      split at h
+      · obtain ⟨_, _, y, p2, ho, _⟩ := litMul_some h
+        exact shapeE b _ _ _ _ _ ho
+      · obtain ⟨_, _, y, p2, ho, _⟩ := litMul_some h
+        exact shapeE a _ _ _ _ _ ho
+      · split at h
+        · simp at h
+        · split at h
+          · rename_i ta x p1 env1 ha
+            split at h
+            · rename_i tb y p2 env2 hb
+              split at h
+              · split at h
+                · simp only [Option.some.injEq, Prod.mk.injEq] at h; obtain ⟨_, _, _, rfl⟩ := h
+                  rw [shapeE b _ _ _ _ _ hb, shapeE a _ _ _ _ _ ha]
+                · simp at h
+              · simp at h
+            · simp at h
+          · simp at h
     all_goals
       simp only [bitExpr] at h
       split at h
-      · simp at h
+      · rename_i heq; simp at heq
+      · rename_i heq; simp at heq
       split at h
       · simp at h
       · split at h
